@@ -225,13 +225,24 @@ Definition payloads (ex : list chunkspec) : list (option Z) :=
 (* The protocol automaton                                                                     *)
 (* ------------------------------------------------------------------------------------------ *)
 
-Inductive phase := PhInit | PhOpen | PhClosing | PhDone.
+(* PhClosing / PhDone: after a closing flush without `exception` (the directory is about to become / has become
+   valid data).  PhClosingX / PhDoneX: after a closing flush that recorded `exception` (the directory is marked
+   broken for good). *)
+Inductive phase := PhInit | PhOpen | PhClosing | PhDone | PhClosingX | PhDoneX.
 
 Definition phase_eqb (a b : phase) : bool :=
   match a, b with
-  | PhInit, PhInit | PhOpen, PhOpen | PhClosing, PhClosing | PhDone, PhDone => true
+  | PhInit, PhInit | PhOpen, PhOpen | PhClosing, PhClosing | PhDone, PhDone
+  | PhClosingX, PhClosingX | PhDoneX, PhDoneX => true
   | _, _ => false
   end.
+
+(* A chunk write that was still in flight when the saver closed with `exception` recorded may finish (or fail)
+   afterwards -- the real save_from loses the future of the chunk whose metadata flush raised, so close() does not
+   wait for it.  That is harmless: the directory can no longer become valid.  After a closing flush *without*
+   `exception` nothing but the directory rename is accepted. *)
+Definition late_ok (ph : phase) : bool :=
+  match ph with PhClosingX | PhDoneX => true | _ => false end.
 
 Record pcfg := mkPcfg {
   p_expected : list chunkspec;   (* what a complete save of this key stores *)
@@ -307,6 +318,7 @@ Definition pstep (c : pcfg) (s : pst) (ev : event) : option pst :=
                     | Failed ENone => p_tmp s
                     end)
                    (p_fin s))
+      else if late_ok (p_ph s) then Some (mkPst (p_ph s) fl (p_tmp s) (p_fin s))
       else None
   | ORenameChunk i =>
       if phase_eqb (p_ph s) PhOpen
@@ -317,18 +329,24 @@ Definition pstep (c : pcfg) (s : pst) (ev : event) : option pst :=
                          | None => rm_i i (p_fin s)
                          end)
                  else mkPst PhOpen fl (p_tmp s) (p_fin s))
+      else if late_ok (p_ph s) then Some (mkPst (p_ph s) fl (p_tmp s) (p_fin s))
       else None
   | OWriteMeta m =>
       if phase_eqb (p_ph s) PhOpen
       then if m_ended m
            then if closing_ok c s m
-                then Some (mkPst (match oc with Done => PhClosing | Failed _ => PhOpen end) fl (p_tmp s) (p_fin s))
+                then Some (mkPst (match oc with
+                                  | Done => if m_exc m then PhClosingX else PhClosing
+                                  | Failed _ => PhOpen
+                                  end) fl (p_tmp s) (p_fin s))
                 else None
            else if running_ok c s m then Some (mkPst PhOpen fl (p_tmp s) (p_fin s)) else None
       else None
   | ORenameDir =>
       if phase_eqb (p_ph s) PhClosing
       then Some (mkPst (if did oc then PhDone else PhClosing) fl (p_tmp s) (p_fin s))
+      else if phase_eqb (p_ph s) PhClosingX
+      then Some (mkPst (if did oc then PhDoneX else PhClosingX) fl (p_tmp s) (p_fin s))
       else None
   | OUpExc => Some (mkPst (p_ph s) true (p_tmp s) (p_fin s))
   | OOther => None
